@@ -184,7 +184,8 @@ class RowFuncCost(BaseCost):
     multiset of rows); optimal parameter = column median (a true minimiser, so the
     inequalities of C06 apply); fixed `param` = location."""
 
-    def __init__(self, param=None):
+    def __init__(self, param=None, weight=1.0):
+        self.weight = weight  # a hyper-parameter besides `param`: adapters must carry it over
         super().__init__(param)
 
     def _fit(self, X, y=None):
@@ -193,7 +194,7 @@ class RowFuncCost(BaseCost):
 
     def _one(self, seg):
         loc = np.median(seg, axis=0) if self.param is None else np.asarray(self.param, dtype=float)
-        return np.abs(seg - loc).sum(axis=0)
+        return self.weight * np.abs(seg - loc).sum(axis=0)
 
     def _evaluate_optim_param(self, starts, ends):
         return np.array([self._one(self.X_[s:e]) for s, e in zip(starts, ends)]).reshape(len(starts), -1)
